@@ -220,8 +220,12 @@ static std::string check_c04(const KV &c) {
         if (a) ascon_hmaca(t.p, k.p, k.n, m.p, m.n); else ascon_hmac(t.p, k.p, k.n, m.p, m.n);
         Bytes want = ref::hmac(a, key, msg);
         if (t.bytes() != want) return M + " (key " + num(key.size()) + " bytes, msg " + num(msg.size()) + ") differs from RFC 2104 over ASCON-HASH" + (a ? "A" : "");
-        if (a) { ascon_hmaca_state_t s; ascon_hmaca_init(&s, k.p, k.n); ascon_hmaca_update(&s, m.p, c1); ascon_hmaca_update(&s, m.p + c1, c2 - c1); ascon_hmaca_update(&s, m.p + c2, m.n - c2); ascon_hmaca_finalize(&s, k.p, k.n, t2.p); ascon_hmaca_free(&s); }
-        else { ascon_hmac_state_t s; ascon_hmac_init(&s, k.p, k.n); ascon_hmac_update(&s, m.p, c1); ascon_hmac_update(&s, m.p + c1, c2 - c1); ascon_hmac_update(&s, m.p + c2, m.n - c2); ascon_hmac_finalize(&s, k.p, k.n, t2.p); ascon_hmac_free(&s); }
+        // in half of the cases another complete HMAC (other key of the same length class, distinct object) runs between update and finalize
+        bool other = (pos >> 8) & 1;
+        Bytes key_o = key; if (key_o.empty()) key_o.push_back(0x36); else key_o[key_o.size() / 2] ^= 0x18;
+        Buf ko(key_o), t3(32);
+        if (a) { ascon_hmaca_state_t s; ascon_hmaca_init(&s, k.p, k.n); ascon_hmaca_update(&s, m.p, c1); ascon_hmaca_update(&s, m.p + c1, c2 - c1); ascon_hmaca_update(&s, m.p + c2, m.n - c2); if (other) ascon_hmaca(t3.p, ko.p, ko.n, m.p, c1); ascon_hmaca_finalize(&s, k.p, k.n, t2.p); ascon_hmaca_free(&s); }
+        else { ascon_hmac_state_t s; ascon_hmac_init(&s, k.p, k.n); ascon_hmac_update(&s, m.p, c1); ascon_hmac_update(&s, m.p + c1, c2 - c1); ascon_hmac_update(&s, m.p + c2, m.n - c2); if (other) ascon_hmac(t3.p, ko.p, ko.n, m.p, c1); ascon_hmac_finalize(&s, k.p, k.n, t2.p); ascon_hmac_free(&s); }
         if (t2.bytes() != want) return M + " incremental (key " + num(key.size()) + ") differs from reference";
         return ""; }
     default: {
